@@ -4,6 +4,7 @@ import (
 	"bytes"
 	"fmt"
 	"io"
+	"os"
 
 	"github.com/ulikunitz/xz"
 	"github.com/ulikunitz/xz/lzma"
@@ -208,10 +209,13 @@ func c13Body(r *core.Run, s Stream, p C13Case, x *core.X) {
 
 func runC13(r *core.Run) {
 	level := 0
-	bound := 2
+	bound := 3
 	if thorough(r) {
 		level = 1
-		bound = 3
+		bound = 4
+	}
+	if v := os.Getenv("VERIF_C13_BOUND"); v != "" {
+		fmt.Sscan(v, &bound)
 	}
 	r.Rule = fmt.Sprintf("streams of all three formats with many boundaries in few bytes; (1) uniform schedules: caller buffer in {1,2,3,5,4096} x source fragment in {1,2,3,all} x last fragment with/without io.EOF; (2) deviation-bounded schedules (bound %d) around defaults (4096,all) and (7,all): at EVERY caller Read a 0- or 1-byte buffer, at EVERY source Read a 1-byte answer or data together with io.EOF; after EOF three more non-empty reads and one empty read. states = (format, deviations used); non-trivial = distinct (stream, observed (n,err) sequence)", bound)
 	streams := readerStreams(level)
@@ -237,9 +241,9 @@ func runC13(r *core.Run) {
 			}
 			p := C13Case{Stream: s.Name, Level: level, DefBuf: def}
 			bd := bound
-			if def == 7 && bound == 3 && len(s.Data) > 200 {
-				bd = 2 // cost bound, recorded below
-				r.Note("bound 2 (not 3) for default buffer 7 on stream " + s.Name)
+			if def == 7 && len(s.Data) > 200 {
+				bd = bound - 1 // cost bound, recorded below
+				r.Note(fmt.Sprintf("bound %d (not %d) for default buffer 7 on stream %s", bd, bound, s.Name))
 			}
 			e := &core.Explorer{Ctx: r, Name: "C13 " + s.Name, Bound: bd, Workers: r.Workers, Body: func(x *core.X) { c13Body(r, s, p, x) },
 				Stop: func() bool { return r.Expired("deviation-bounded schedules") }}
